@@ -1279,8 +1279,10 @@ theorem step_spec (G : List Grid) {s s' : State K} (hwf : WF s) {op : Op K}
       split at h
       · cases h
       cases h; exact key _ rfl
-  | storeFrame hd =>
+  | storeFrame hd into =>
     simp only [step] at h
+    split at h
+    · cases h
     split at h
     · cases h
     cases h
@@ -1568,8 +1570,10 @@ theorem newOK_step (G : List Grid) {s s' : State K} (hi : Inv G s) {op : Op K}
   | inplace bop a b =>
     obtain ⟨oa, g, _, rfl⟩ := inplace_eq' h
     exact NewOK.none rfl
-  | storeFrame hd =>
+  | storeFrame hd into =>
     simp only [step] at h
+    split at h
+    · cases h
     split at h
     · cases h
     cases h
